@@ -589,3 +589,323 @@ theorem readFrames_writeFrames_inv (fs : List Frame) (h : readFrames maxTok (wri
             ⟨n3, dropCR_fix _ (hfix _ (hm _ (by simp [Frame.comps]))), hlen _ (hm _ (by simp [Frame.comps]))⟩⟩
 
 end Kap.C18
+namespace Kap.C18
+open List
+
+/-! ## The line of a point has a line feed only if one of the point's strings has one -/
+
+theorem mem_replaceByte (c : UInt8) (w : Bytes) (x : UInt8) (s : Bytes) (hw : x ∉ w)
+    (h : x ∈ replaceByte c w s) : x ∈ s := by
+  induction s with
+  | nil => simp [replaceByte] at h
+  | cons y ys ih =>
+    simp only [replaceByte] at h
+    by_cases hy : y = c
+    · simp only [hy, if_true, List.mem_append] at h
+      rcases h with h | h
+      · exact absurd h hw
+      · exact List.mem_cons_of_mem _ (ih h)
+    · simp only [hy, if_false, List.mem_cons] at h
+      rcases h with h | h
+      · simp [h]
+      · exact List.mem_cons_of_mem _ (ih h)
+
+theorem mem_replacePair (a b w x : UInt8) (hx : x ≠ w) :
+    ∀ (n : Nat) (s : Bytes), s.length ≤ n → x ∈ replacePair a b w s → x ∈ s := by
+  intro n
+  induction n with
+  | zero => intro s hs h; cases s with | nil => simp [replacePair] at h | cons _ _ => simp at hs
+  | succ n ih =>
+    intro s hs h
+    rcases s with _ | ⟨y, _ | ⟨z, rest⟩⟩
+    · simp [replacePair] at h
+    · simpa [replacePair] using h
+    · simp only [replacePair] at h
+      by_cases hc : y = a ∧ z = b
+      · simp only [hc, and_self, if_true, List.mem_cons] at h
+        rcases h with h | h
+        · exact absurd h hx
+        · have := ih rest (by simp at hs; omega) h
+          simp [this]
+      · simp only [hc, if_false, List.mem_cons] at h
+        rcases h with h | h
+        · simp [h]
+        · have := ih (z :: rest) (by simp at hs ⊢; omega) h
+          exact List.mem_cons_of_mem _ this
+
+theorem mem_escFlat (P : UInt8 → Prop) [DecidablePred P] (x : UInt8) (s : Bytes) (hx : x ≠ BS)
+    (h : x ∈ s.flatMap (fun c => if P c then [BS, c] else [c])) : x ∈ s := by
+  simp only [List.mem_flatMap] at h
+  obtain ⟨c, hc, hxc⟩ := h
+  by_cases hp : P c
+  · simp only [hp, if_true, List.mem_cons, List.not_mem_nil, or_false] at hxc
+    rcases hxc with h | h
+    · exact absurd h hx
+    · rwa [h]
+  · simp only [hp, if_false, List.mem_singleton] at hxc
+    rwa [hxc]
+
+theorem NL_ne_BS : NL ≠ BS := by decide
+
+theorem nl_escMeas (s : Bytes) (h : NL ∈ escMeas (unescMeas s)) : NL ∈ s := by
+  unfold escMeas unescMeas at h
+  have h1 := mem_replaceByte _ _ _ _ (by decide) h
+  have h2 := mem_replaceByte _ _ _ _ (by decide) h1
+  have h3 := mem_replacePair _ _ _ _ (by decide) _ _ (Nat.le_refl _) h2
+  exact mem_replacePair _ _ _ _ (by decide) _ _ (Nat.le_refl _) h3
+
+theorem nl_escTag (s : Bytes) (h : NL ∈ escTag s) : NL ∈ s := by
+  unfold escTag at h
+  exact mem_replaceByte _ _ _ _ (by decide) (mem_replaceByte _ _ _ _ (by decide) (mem_replaceByte _ _ _ _ (by decide) h))
+
+theorem nl_escKey (s : Bytes) (h : NL ∈ escKey s) : NL ∈ s :=
+  mem_escFlat (fun c => c = COMMA ∨ c = DQ ∨ c = SP ∨ c = EQ) NL s NL_ne_BS h
+
+theorem nl_escStr (s : Bytes) (h : NL ∈ escStr s) : NL ∈ s :=
+  mem_escFlat (fun c => c = DQ ∨ c = BS) NL s NL_ne_BS h
+
+/-- ASCII digit. -/
+def isDigitB (x : UInt8) : Prop := ∃ k, k < 10 ∧ x = UInt8.ofNat (48 + k)
+
+theorem natDigitsAux_digits (fuel n : Nat) : ∀ x ∈ natDigitsAux fuel n, isDigitB x := by
+  induction fuel generalizing n with
+  | zero => simp [natDigitsAux]
+  | succ f ih =>
+    intro x hx
+    simp only [natDigitsAux] at hx
+    by_cases hn : n < 10
+    · simp only [hn, if_true, List.mem_singleton] at hx
+      exact ⟨n, hn, hx⟩
+    · simp only [hn, if_false, List.mem_append, List.mem_singleton] at hx
+      rcases hx with h | h
+      · exact ih _ x h
+      · exact ⟨n % 10, Nat.mod_lt _ (by omega), h⟩
+
+theorem digit_ne (x : UInt8) (h : isDigitB x) : x ≠ NL ∧ x ≠ CR := by
+  obtain ⟨k, hk, rfl⟩ := h
+  have : ∀ k, k < 10 → UInt8.ofNat (48 + k) ≠ NL ∧ UInt8.ofNat (48 + k) ≠ CR := by decide
+  exact this k hk
+
+theorem natDigits_ne_nil (n : Nat) : natDigits n ≠ [] := by
+  unfold natDigits natDigitsAux
+  by_cases hn : n < 10 <;> simp [hn]
+
+theorem natDigits_last (n : Nat) : ∃ x, (natDigits n).getLast? = some x ∧ isDigitB x := by
+  have hne := natDigits_ne_nil n
+  cases hl : (natDigits n).getLast? with
+  | none => simp [List.getLast?_eq_none_iff] at hl; exact absurd hl hne
+  | some x => exact ⟨x, rfl, natDigitsAux_digits _ _ x (List.mem_of_getLast? hl)⟩
+
+theorem nl_intDigits (v : Int) : NL ∉ intDigits v := by
+  unfold intDigits
+  intro h
+  by_cases hv : v < 0
+  · rw [if_pos hv] at h
+    rcases List.mem_cons.mp h with h | h
+    · exact absurd h (by decide)
+    · exact (digit_ne _ (natDigitsAux_digits _ _ _ h)).1 rfl
+  · rw [if_neg hv] at h
+    exact (digit_ne _ (natDigitsAux_digits _ _ _ h)).1 rfl
+
+theorem intDigits_last (v : Int) : ∃ x, (intDigits v).getLast? = some x ∧ isDigitB x := by
+  unfold intDigits
+  obtain ⟨x, hx, hd⟩ := natDigits_last v.natAbs
+  refine ⟨x, ?_, hd⟩
+  by_cases hv : v < 0
+  · simp only [hv, if_true]
+    rw [List.getLast?_cons]
+    simp [hx]
+  · simp [hv, hx]
+
+theorem mem_joinWith (sep x : UInt8) (hs : x ≠ sep) (l : List Bytes) (h : x ∈ joinWith sep l) : ∃ y ∈ l, x ∈ y := by
+  induction l with
+  | nil => simp [joinWith] at h
+  | cons a r ih =>
+    cases r with
+    | nil => simp only [joinWith] at h; exact ⟨a, by simp, h⟩
+    | cons b r' =>
+      simp only [joinWith, List.mem_append, List.mem_cons] at h
+      rcases h with h | h | h
+      · exact ⟨a, by simp, h⟩
+      · exact absurd h hs
+      · obtain ⟨y, hy, hxy⟩ := ih h
+        exact ⟨y, List.mem_cons_of_mem _ hy, hxy⟩
+
+
+/-- The float texts of a point's fields contain no line feed (they are digits, '.', '-'). -/
+def FloatTextClean (F : FloatCodec) (p : SPoint) : Prop := ∀ kv ∈ p.fields, ∀ b, kv.2 = .float b → NL ∉ F.fmt b
+
+theorem nl_renderFV (F : FloatCodec) (v : FV) (hF : ∀ b, v = .float b → NL ∉ F.fmt b) (h : NL ∈ renderFV F v) :
+    v.hasNL = true := by
+  cases v with
+  | float b => exact absurd h (hF b rfl)
+  | int i =>
+    unfold renderFV at h
+    rcases List.mem_append.mp h with h | h
+    · exact absurd h (nl_intDigits i)
+    · exact absurd (List.mem_singleton.mp h) (by decide)
+  | str s =>
+    unfold renderFV at h
+    rcases List.mem_cons.mp h with h | h
+    · exact absurd h (by decide)
+    · rcases List.mem_append.mp h with h | h
+      · simp [FV.hasNL, hasNL, nl_escStr s h]
+      · exact absurd (List.mem_singleton.mp h) (by decide)
+  | bool b =>
+    cases b
+    · have h' : NL ∈ ([102, 97, 108, 115, 101] : Bytes) := h
+      exact absurd h' (by decide)
+    · have h' : NL ∈ ([116, 114, 117, 101] : Bytes) := h
+      exact absurd h' (by decide)
+
+theorem nl_keyBytes (name : Bytes) (tags : Tags) (h : NL ∈ keyBytes name tags) :
+    NL ∈ name ∨ ∃ kv ∈ tags, NL ∈ kv.1 ∨ NL ∈ kv.2 := by
+  unfold keyBytes at h
+  rcases List.mem_append.mp h with h | h
+  · exact Or.inl (nl_escMeas name h)
+  · right
+    obtain ⟨kv, hkv, h⟩ := List.mem_flatMap.mp h
+    refine ⟨kv, hkv, ?_⟩
+    by_cases he : kv.2.isEmpty = true
+    · simp [he] at h
+    · simp only [he] at h
+      rcases List.mem_cons.mp h with h | h
+      · exact absurd h (by decide)
+      · rcases List.mem_append.mp h with h | h
+        · exact Or.inl (nl_escTag _ h)
+        · rcases List.mem_cons.mp h with h | h
+          · exact absurd h (by decide)
+          · exact Or.inr (nl_escTag _ h)
+
+theorem nl_fieldBytes (F : FloatCodec) (fs : Fields) (hF : ∀ kv ∈ fs, ∀ b, kv.2 = .float b → NL ∉ F.fmt b)
+    (h : NL ∈ fieldBytes F fs) : ∃ kv ∈ fs, NL ∈ kv.1 ∨ kv.2.hasNL = true := by
+  unfold fieldBytes at h
+  obtain ⟨y, hy, hxy⟩ := mem_joinWith COMMA NL (by decide) _ h
+  obtain ⟨kv, hkv, rfl⟩ := List.mem_map.mp hy
+  refine ⟨kv, hkv, ?_⟩
+  rcases List.mem_append.mp hxy with h | h
+  · exact Or.inl (nl_escKey _ h)
+  · rcases List.mem_cons.mp h with h | h
+    · exact absurd h (by decide)
+    · exact Or.inr (nl_renderFV F kv.2 (hF kv hkv) h)
+
+theorem hasNL_false (s : Bytes) (h : hasNL s = false) : NL ∉ s := by
+  intro hm
+  have : hasNL s = true := by simp [hasNL, hm]
+  rw [h] at this; exact Bool.noConfusion this
+
+/-- **A line feed gets into the recorded line only from the point's own strings**: if no component of the point
+(in the sense of the finding's clause `SPoint.dirty`) has one, the line has none. -/
+theorem line_newline_free (F : FloatCodec) (mult : Int) (p : SPoint) (hF : FloatTextClean F p)
+    (hd : p.dirty = false) : NL ∉ lineOf F mult p := by
+  intro h
+  simp only [SPoint.dirty, Bool.or_eq_false_iff] at hd
+  obtain ⟨⟨⟨⟨⟨⟨_, _⟩, _⟩, _⟩, hname⟩, htags⟩, hfields⟩ := hd
+  unfold lineOf at h
+  rcases List.mem_append.mp h with h | h
+  · rcases List.mem_append.mp h with h | h
+    · rcases nl_keyBytes _ _ h with h | ⟨kv, hkv, h⟩
+      · exact hasNL_false _ hname h
+      · have := List.any_eq_false.mp htags kv hkv
+        simp only [Bool.or_eq_true, not_or, Bool.not_eq_true] at this
+        rcases h with h | h
+        · exact hasNL_false _ this.1 h
+        · exact hasNL_false _ this.2 h
+    · rcases List.mem_cons.mp h with h | h
+      · exact absurd h (by decide)
+      · obtain ⟨kv, hkv, h⟩ := nl_fieldBytes F p.fields hF h
+        have := List.any_eq_false.mp hfields kv hkv
+        simp only [Bool.or_eq_true, not_or, Bool.not_eq_true] at this
+        rcases h with h | h
+        · exact hasNL_false _ this.1 h
+        · rw [this.2] at h; exact Bool.noConfusion h
+  · rcases List.mem_cons.mp h with h | h
+    · exact absurd h (by decide)
+    · exact absurd h (nl_intDigits _)
+
+/-- The line ends in a digit of the timestamp, never in a carriage return. -/
+theorem line_last_not_CR (F : FloatCodec) (mult : Int) (p : SPoint) : (lineOf F mult p).getLast? ≠ some CR := by
+  obtain ⟨x, hx, hdg⟩ := intDigits_last (p.time.tdiv mult)
+  have hne : intDigits (p.time.tdiv mult) ≠ [] := by intro e; simp [e] at hx
+  have : (lineOf F mult p).getLast? = some x := by
+    unfold lineOf
+    rw [List.getLast?_append]
+    have : (SP :: intDigits (p.time.tdiv mult)).getLast? = some x := by
+      cases hi : intDigits (p.time.tdiv mult) with
+      | nil => exact absurd hi hne
+      | cons a r => rw [hi] at hx; rw [List.getLast?_cons_cons]; exact hx
+    rw [this]; rfl
+  rw [this]; intro e; exact (digit_ne x hdg).2 (Option.some.inj e)
+
+
+/-- Size side condition: every recorded line fits the Scanner's buffer. -/
+def FitsScanner (F : FloatCodec) (mult : Int) (p : SPoint) : Prop :=
+  p.db.length < maxTok ∧ p.rp.length < maxTok ∧ (lineOf F mult p).length < maxTok
+
+/-- A point to which the clause of finding `stream-newline-framing` does NOT apply has a clean frame. -/
+theorem frame_clean_of_point (F : FloatCodec) (mult : Int) (p : SPoint) (hF : FloatTextClean F p)
+    (hd : p.dirty = false) (hsz : FitsScanner F mult p) : (frameOf F mult p).clean := by
+  have hl := line_newline_free F mult p hF hd
+  have hd' := hd
+  simp only [SPoint.dirty, Bool.or_eq_false_iff] at hd'
+  obtain ⟨⟨⟨⟨⟨⟨hdb, hrp⟩, hcdb⟩, hcrp⟩, _⟩, _⟩, _⟩ := hd'
+  have cr : ∀ s : Bytes, endsCR s = false → s.getLast? ≠ some CR := by
+    intro s h e; simp [endsCR, e] at h
+  exact ⟨⟨hasNL_false _ hdb, cr _ hcdb, hsz.1⟩, ⟨hasNL_false _ hrp, cr _ hcrp, hsz.2.1⟩,
+         ⟨hl, line_last_not_CR F mult p, hsz.2.2⟩⟩
+
+end Kap.C18
+namespace Kap.C18
+open List
+
+theorem escStr_cons (c : UInt8) (s : Bytes) :
+    escStr (c :: s) = (if c = DQ ∨ c = BS then [BS, c] else [c]) ++ escStr s := by
+  simp [escStr]
+
+theorem escStr_nil_iff (s : Bytes) (h : escStr s = []) : s = [] := by
+  cases s with
+  | nil => rfl
+  | cons c r =>
+    rw [escStr_cons] at h
+    by_cases hc : c = DQ ∨ c = BS <;> simp [hc] at h
+
+/-- **String field values survive the line protocol**: `unescapeStringField (EscapeStringField s) = s` for EVERY
+byte string (quotes, backslashes — also trailing ones —, commas, spaces, `=`, unicode, control characters). -/
+theorem unescStr_escStr (s : Bytes) : unescStr (escStr s) = s := by
+  induction s with
+  | nil => simp [escStr, unescStr]
+  | cons c r ih =>
+    rw [escStr_cons]
+    by_cases hq : c = DQ
+    · subst hq
+      have hne : DQ ≠ BS := by decide
+      simp [unescStr, ih, hne]
+    · by_cases hb : c = BS
+      · subst hb
+        simp only [or_true, if_true, List.cons_append, List.nil_append]
+        simp [unescStr, ih]
+      · have hc : ¬ (c = DQ ∨ c = BS) := by simp [hq, hb]
+        simp only [hc, if_false, List.cons_append, List.nil_append]
+        cases he : escStr r with
+        | nil =>
+          have := escStr_nil_iff r he
+          subst this
+          simp [unescStr]
+        | cons y rest =>
+          rw [he] at ih
+          simp [unescStr, hb, ih]
+
+
+/-- A string field value is written and read back as the same STRING (type and value), whatever bytes it holds. -/
+theorem parseFV_render_str (F : FloatCodec) (s : Bytes) : parseFV F (renderFV F (.str s)) = some (.str s) := by
+  have h1 : (escStr s ++ [DQ]).getLast? = some DQ := by simp
+  have h2 : (escStr s ++ [DQ]).dropLast = escStr s := by simp
+  have h3 : (escStr s ++ [DQ]).length ≥ 1 := by simp
+  show parseFV F (DQ :: (escStr s ++ [DQ])) = _
+  simp [parseFV, h1, h2, unescStr_escStr]
+
+/-- A boolean field is written and read back as the same BOOLEAN. -/
+theorem parseFV_render_bool (F : FloatCodec) (b : Bool) : parseFV F (renderFV F (.bool b)) = some (.bool b) := by
+  cases b <;> simp [renderFV, parseFV, boolLits, List.lookup, DQ]
+
+end Kap.C18
